@@ -3,8 +3,8 @@ import MidiModel.Generated.SysexGo
 /-!
 # C18, tie to the source: `Manufacturer.Checksum` as translated from `v2/sysex/sysex.go` on every run is the model's
 `Sysex.checksum` — the `int32` accumulation over address + size/payload, the truncated remainder, `128 − rem`.
-(`Generated/SysexGo.lean` also carries the translation of `sysex.Parse`; it is compiled on every run, its
-correspondence with the model's `parse` is the differential one.)
+(`Generated/SysexGo.lean` also carries the translation of `sysex.Parse`: `Props/C18_Parse.lean` proves it equal to the
+model's `parse`.)
 -/
 namespace Midi.C18
 open Midi Midi.Go Midi.Sysex
